@@ -158,10 +158,21 @@ def chacha_dec(key, nonce, aad, ct, tag):
 # that the correspondence run sees where cbor2 is more lenient than RFC 8949 well-formedness plus the address shape:
 #   outer   : exactly one item (nothing may follow), an array [tag (any number) around a byte string, unsigned int]
 #   payload : exactly one item, an array [byte string, map, unsigned int]; the map has at most two entries and, if not
-#             empty, key 1 or key 2; every value a byte string; the value under 2 starts with a well-formed item
+#             empty, key 1 or key 2; every value a byte string.  The value under 2 (network magic) is never used by the
+#             decoder: its only requirement is that cbor2.loads does not raise on it, and that is what is asked here
+#             (cbor2 also raises on some well-formed items, e.g. OverflowError on [2^64-1, 0] -- no RFC notion)
 #   attr 1  : its FIRST item (the library still uses cbor2.loads here: what follows is ignored): a byte string -> its
 #             content; null -> nothing (the library then has no HD path)
 import cborref as _cb
+
+
+def _cbor2_loads_ok(b):
+    import cbor2
+    try:
+        cbor2.loads(bytes(b))
+        return True
+    except Exception:  # noqa  -- any failure of the third-party decoder
+        return False
 
 
 def _uint(v):
@@ -201,11 +212,8 @@ def byron_parse_payload(b):
         return []
     if not all(isinstance(x, bytes) for x in attrs.values()):
         return []
-    if 2 in attrs:
-        try:
-            _cb.cb_first(attrs[2])
-        except ValueError:
-            return []
+    if 2 in attrs and not _cbor2_loads_ok(attrs[2]):
+        return []
     return [rh, [attrs[1]] if 1 in attrs else [], _uint(ty)]
 
 
